@@ -7,7 +7,7 @@
     traces observed on the implementation ([spec_c01]), so that the theorem below says: the state machine
     that agrees with the implementation step by step implements this fold on every history. *)
 From Xds Require Import Model.Base Model.Fqdn Model.Proto Model.Decode Model.DecodeCheck Model.Pick Model.Route Model.Mw Model.Sys Model.SysCheck.
-From Xds Require Import Proofs.DecodeProofs Proofs.C01Proofs.
+From Xds Require Import Proofs.DecodeProofs Proofs.C01Proofs Proofs.ResolveProofs.
 Open Scope string_scope.
 
 (** Refinement, for every history (of any length) of subscriptions, lookups, bursts of lookups, responses of
@@ -20,6 +20,13 @@ Theorem C01_refinement : forall c o t n h, t <> TNt -> forallb c01_op h = true -
   abs t n (final c o h) = fold_left (kv_step c o t n) h kv_init.
 Proof. exact final_refines. Qed.
 Print Assumptions C01_refinement.
+
+(** The same with resolver lookups in the history, for listeners, route tables and clusters; for endpoint sets the
+    fold is [ep_fold] (a resolution subscribes the endpoint set named by the cluster it finds): C10_endpoints_are_fold. *)
+Theorem C01_refinement_with_resolutions : forall c o t n h, t <> TNt -> t <> TEp -> forallb hist_op h = true -> forall s, inv s ->
+  abs t n (fst (run c o s h)) = fold_left (kv_step c o t n) h (abs t n s).
+Proof. exact run_refines_hist. Qed.
+Print Assumptions C01_refinement_with_resolutions.
 
 (** A lookup succeeds exactly when the fold contains the name and returns the fold's content. *)
 Theorem C01_lookup_serves_fold : forall c o t n h, t <> TNt -> forallb c01_op h = true ->
